@@ -1,4 +1,5 @@
 import Proofs.NewInst
+import Proofs.NewShape
 
 /-!
   C19 — New instances get typed defaults and fresh non-null identifiers.
@@ -178,5 +179,52 @@ example : ((newMany intStream [call1, call2] 0).1.map (·.dict)) =
 example : allDefaultedIds [call1, call2] (newMany intStream [call1, call2] 0).1 =
     [some (.int 1), some (.int 2), some (.int 4)] := by decide
 example : (IntGen.run [.peek, .next, .peek, .peek, .next, .next] IntGen.init).1 = [1, 1, 2, 2, 2, 3] := by decide
+
+end PyxProps.C19
+
+/-! ==========================================================================================================
+  SOURCE TIE of instance creation and the id generators
+
+  translator/gen_newshape.py reads the three assignment loops of `MetaClass.new` and the classes IdGenerator,
+  IntegerGenerator, UUIDGenerator with `ast` on every run and emits their statement structure as IR
+  (lean/Gen/NewShape.lean); anything outside the expected shape raises (broken tie) — in particular a
+  `UUIDGenerator.readfunc` that is not exactly `uuid.uuid4().int`, or an `import random` next to the generators.
+  Proofs/NewShape.lean defines ONE generic, statement-by-statement interpreter of that IR.  The theorems state
+  that the model of PyxModel/NewInst.lean IS the interpretation of the IR generated from the current source.
+  ========================================================================================================== -/
+namespace PyxProps.C19
+open Pyx.Attr Pyx.NewInst Pyx.NShape Pyx.Gen.NewShape
+
+/-- `MetaClass.new`: a default for every non-referential attribute in declared order (computed, and its id drawn, when
+    its statement is executed), then the positional arguments zipped over ALL declared attributes (surplus arguments
+    are dropped by `zip`; a referential position goes to the local dictionary), then the keyword arguments, each
+    resolved to the declared spelling first; an exception stops everything that follows -/
+theorem new_loops_as_in_source (stream : Nat → Int) (call : Call) (pos : Nat) (hwf : WF call.cls) :
+    newOne stream call pos = iNewOne newLoops stream call pos :=
+  newOne_eq stream call pos hwf
+
+/-- IdGenerator / IntegerGenerator: `__init__` draws the first value, `peek` returns the current value and changes
+    nothing, `next` saves the current value, draws the next one and returns the saved one; the integer generator
+    starts from the class attribute and adds the increment read from the source; UUIDGenerator.readfunc is
+    `uuid.uuid4().int`, and the metamodel's generator is bound in MetaModel.__init__ only — no other statement of the
+    library assigns an `id_generator` attribute (both checked by the generator on every run) -/
+theorem generators_as_in_source (g : IntGen) :
+    IntGen.init = { current := (iGRun (fun cur => cur + intIncrement) genInit intStart).current } ∧
+    IntGen.peek g = ((iGRun (fun cur => cur + intIncrement) genPeek g.current).ret).getD 0 ∧
+    (iGRun (fun cur => cur + intIncrement) genPeek g.current).current = g.current ∧
+    IntGen.next g = (((iGRun (fun cur => cur + intIncrement) genNext g.current).ret).getD 0,
+                     { current := (iGRun (fun cur => cur + intIncrement) genNext g.current).current }) ∧
+    uuidReadfuncIsUuid4 = true ∧ idGeneratorBoundOnlyInInit = true :=
+  ⟨(intGen_eq g).1, (intGen_eq g).2.1, (intGen_eq g).2.2.1, (intGen_eq g).2.2.2, rfl, rfl⟩
+
+/-! non-vacuity: the interpreter runs the generated loops; loops in another order are another function -/
+example : ((iNewOne newLoops intStream call2 2).1.dict) =
+    [(['I', 'd'], .int 77), (['N', 'm'], .str []), (['O', 'k'], .bool true), (['I', 'd', '2'], .int 4), (['R'], .real ['0', '.', '0'])] := by
+  decide
+def call3 : Call := { cls := cA, args := [.int 77], kwargs := [(['i', 'D'], .int 5)] }
+example : dget (iNewOne newLoops intStream call3 0).1.dict ['I', 'd'] = some (.int 5) ∧
+    dget (iNewOne (newLoops.take 1 ++ (newLoops.drop 2) ++ (newLoops.drop 1).take 1) intStream call3 0).1.dict ['I', 'd'] = some (.int 77) := by decide
+example : (iGRun (fun cur => cur + intIncrement) genNext 4).ret = some 4 ∧
+    (iGRun (fun cur => cur + intIncrement) genNext 4).current = 5 := by decide
 
 end PyxProps.C19
